@@ -13,7 +13,7 @@ VERUS_UNITS = {
     'complex-ast': dict(unit='complex-ast', rlimit=30),
     'decimal-ast': dict(unit='decimal-ast', rlimit=30, multiple_errors=40),
     'f64-ast': dict(unit='f64-ast', rlimit=30),
-    'number-ast': dict(unit='number-ast', rlimit=30),
+    'number-ast': dict(unit='number-ast', rlimit=30, always_split=['eval']),
     'i64number-agree': dict(unit='i64number-agree', rlimit=30),
     'i64-tok': dict(unit='i64-tok', rlimit=30), 'f64-tok': dict(unit='f64-tok', rlimit=30), 'number-tok': dict(unit='number-tok', rlimit=30),
     'decimal-tok': dict(unit='decimal-tok', rlimit=30), 'complex-tok': dict(unit='complex-tok', rlimit=30),
@@ -90,8 +90,7 @@ PLAN = {
     'C10': dict(verus=ALL_V, kani=['i64-ast', 'f64-ast', 'number-ast', 'number-l4'], level='proof', assumptions=AST_ASSUME + F64_ASSUME + PARSER_ASSUME,
                 unclaimed=['numerical accuracy of libm-backed functions, gamma, Lambert W (A-libm: which primitive is applied to which operands is proved, not what it computes)']),
     'C11': dict(verus=ALL_V, kani=['f64-ast', 'number-ast'], level='proof', assumptions=AST_ASSUME + F64_ASSUME + PARSER_ASSUME,
-                unclaimed=['the value of eval_decimal aggregates (error propagation and panic-freedom only)',
-                           'med of two or more arguments in eval_f64 / eval_number / eval_decimal beyond: NaN if any argument is NaN, no panic (the middle of a sorted permutation is not a function of the multiset when 0.0 and -0.0 both occur)',
+                unclaimed=['med of two or more arguments in eval_f64 / eval_number / eval_decimal is specified up to the order of arguments that compare equal (0.0 / -0.0, Integer(2) / Float(2.0), 1.0 / 1.00): the result is the median of SOME sorted permutation of the argument values',
                            'independence of the argument order: the code is proved to compute the left fold of the binary min / max / gcd / lcm; that these folds are order-independent is mathematics not machine-checked here']),
     'C13': dict(verus=PARSERS + GLUES + TOKS + ['f64-ast', 'number-ast'], kani=['f64-ast', 'number-ast'], level='proof', assumptions=PARSER_ASSUME + GLUE_ASSUME + TOK_ASSUME,
                 unclaimed=[]),
@@ -187,7 +186,7 @@ LEVEL_TEXT = {
                 'Kani: every function arm of eval_f64 / eval_number / eval_i64 applies the named libm primitive once to the operands in the stated order (recording stubs), exact ones (abs, floor, ceil, trunc, round with ties away from zero, sgn(0)=0) bit-exactly.',
     'C11': _V + 'eval_i64 aggregates (min max avg med gcd lcm) for any arity against fold specifications over the sequence of argument values, error propagation; variadic argument lists and the empty-list policy in the four parsers that have them; '
                 'eval_f64 and eval_number aggregates for any arity: min / max are the fold of the IEEE min / max (eval_number: of the comparison of the double values, keeping the argument) from the identity, avg is the left-to-right sum divided by the count, '
-                'med is NaN if any argument is NaN and the argument itself for one argument, a failing argument makes the aggregate fail; eval_decimal aggregates: error propagation and panic-freedom.',
+                'med is NaN if any argument is NaN, the argument itself for one argument, and for more arguments the middle value / the mean of the two middle values of a permutation of the argument values sorted by the IEEE (eval_number: double-value, eval_decimal: Decimal) order; a failing argument makes the aggregate fail; eval_decimal aggregates: min / max folds, avg = checked sum / count, med as above, Err when a sum leaves the Decimal range.',
     'C12': _V + 'implicit_multiply, its call sites and parse (Eof) refine the juxtaposition rule of the specification parser (trigger sets, operand level Multiplicative, node order, no literal after a literal, no product at @ / constants / superscripts / degree signs) in all five parsers.',
     'C13': _V + 'the notation arms (floor/ceil brackets, mod/pow functions, superscripts, prefix +, redundant brackets) build the same nodes as their synonyms, by refinement to the tables, in all five parsers; a superscript run lexes to the exponent its digits spell (2¹⁰ = 2^10); alias spellings (sign / sgn / signum, trunc / truncate, med / median, asinh / arsinh .., w / lambert_w, pi / π) lex to the same token; the public wrappers hand exactly '
                 'the whitespace-stripped text to the parser; the alias nodes apply the same primitive (Kani).',
